@@ -598,6 +598,8 @@ theorem scanAndDispatch_spec (cfg : Server.Cfg) (tr : Server.Transport) (now : N
 structure HdrOk (sH : State) (tr : Server.Transport) (payload : Nat) : Prop where
   sect : sH.sect = .question
   qd : sH.qdcount = 0
+  an : sH.ancount = 0
+  ns : sH.nscount = 0
   ar : sH.arcount = 0
   qname : sH.qname = none
   owner : sH.mostRecentOwner = none
